@@ -33,7 +33,6 @@ def listOf (s : String) : List String := if s == "-" then [] else s.splitOn ","
 def showRes : R Bool → String
   | .ok b => boolStr b
   | .error .index => "panic:index"
-  | .error .nilKey => "panic:nilkey"
   | .error .decode => "panic:decode"
 
 def showNat : R Nat → String
@@ -145,7 +144,6 @@ def costOf (c : Char) : Option Nat :=
 def showGas : R Nat → String
   | .ok g => s!"gas={g}"
   | .error .index => "panic:index"
-  | .error .nilKey => "panic:nilkey"
   | .error .decode => "panic:decode"
 
 def runGas (spec bits nsigs : String) : String :=
